@@ -230,6 +230,12 @@ def t_db(threads, top=False):
 		fids = [f'g{i}' if isinstance(i, int) else i for i in order]
 		fixtures.write_sigfile(os.path.join(d, 'db.gs'), ks, fsigs, ids=fids, id_attr='key')
 		db = ReferenceDatabase.load_from_dir(d)
+		# a second, smaller database (two genomes): one parameters object is used for it first and for the main database afterwards
+		dsm = os.path.join(d, 'small')
+		os.makedirs(dsm)
+		fixtures.write_genome_db(os.path.join(dsm, 'db.gdb'), taxa, genomes[:2])
+		fixtures.write_sigfile(os.path.join(dsm, 'db.gs'), ks, [lift(sigs[1]), lift(sigs[0])], ids=['g1', 'g0'], id_attr='key')
+		dbsmall = ReferenceDatabase.load_from_dir(dsm)
 		ref_order = [i for i in order if isinstance(i, int)]
 		if [g.key for g in db.genomes] != [f'g{i}' for i in ref_order]:
 			sh.violation('db-genome-order', dict(threads=threads, **(dict(top=True) if top else {})), [f'g{i}' for i in ref_order], [g.key for g in db.genomes])
@@ -239,7 +245,12 @@ def t_db(threads, top=False):
 		refarrs = fixtures.sig_arrays(ks, [lift(sigs[i]) for i in ref_order])
 		for chunksize in (1, 2, 3, 1000):
 			for N in (1, 2, 3, 9, 14):
-				res = query(db, qarrs, QueryParams(report_closest=N, chunksize=chunksize), inputs=[f'q{m}' for m in range(32)])
+				params = QueryParams(report_closest=N, chunksize=chunksize)
+				rs = query(dbsmall, qarrs[:3], params)
+				sh.evals += 1
+				if any(len(it.closest_genomes) != min(N, 2) for it in rs.items):
+					sh.violation('db-closest-list', dict(query='small database', threads=threads, chunksize=chunksize, N=N, **(dict(top=True) if top else {})), min(N, 2), [len(it.closest_genomes) for it in rs.items])
+				res = query(db, qarrs, params, inputs=[f'q{m}' for m in range(32)])      # the SAME parameters object as for the small database
 				buf = io.StringIO()
 				CSVResultsExporter().export(buf, res)
 				rows = list(csv.DictReader(io.StringIO(buf.getvalue())))
@@ -278,6 +289,8 @@ def t_db(threads, top=False):
 					sh.outcome(['db', got, N])
 		db.signatures.close()
 		db.session.close()
+		dbsmall.signatures.close()
+		dbsmall.session.close()
 	sh.sample(dict(family='db', threads=threads, query=qsets[-1], chunksize=chunksize, N=N, closest=got))
 	return sh
 
